@@ -185,7 +185,7 @@ func c01Exhaustive(full bool) []string {
 func init() {
 	run.Register(&run.Prop{
 		ID: "C01", Level: "exploration", MinNontrivial: 2000,
-		Rule: "a case is (program text, input). Sources: bounded-exhaustive small programs over a reduced atom set (every binary form over 15 atoms, 30 unary templates, 20 binary and 8 ternary templates), PRNG-generated core-grammar programs (nested generators inside binders inside try/label inside function bodies, destructuring with ?//, closures, recursion, shadowing), the library-level corpus queries with their pinned inputs, and token mutations of corpus queries. Each is run by the real Parse/Compile/Run under a 200k-instruction budget and by the reference interpreter M (harness/internal/model, written from the jq manual, interprets builtin.jq from its text); event lists are compared (values by canonical form, user errors by value, internal errors by class). Non-trivial = distinct (program, input) with a program longer than 8 bytes whose run emitted a value or ended in an error, and which the model supports.",
+		Rule:        "a case is (program text, input). Sources: bounded-exhaustive small programs over a reduced atom set (every binary form over 15 atoms, 30 unary templates, 20 binary and 8 ternary templates), PRNG-generated core-grammar programs (nested generators inside binders inside try/label inside function bodies, destructuring with ?//, closures, recursion, shadowing), the library-level corpus queries with their pinned inputs, and token mutations of corpus queries. Each is run by the real Parse/Compile/Run under a 200k-instruction budget and by the reference interpreter M (harness/internal/model, written from the jq manual, interprets builtin.jq from its text); event lists are compared (values by canonical form, user errors by value, internal errors by class). Non-trivial = distinct (program, input) with a program longer than 8 bytes whose run emitted a value or ended in an error, and which the model supports.",
 		Assumptions: []string{"gojq.Parse produces the AST the model interprets (the parser is checked separately under C09)", "the reference interpreter M is a faithful reading of the jq manual; calibrated on the pinned corpus (vcheck modelcal: reproduces the pinned output of every supported library-level case)", "programs outside M's language are counted as unsupported, not compared"},
 		Body: func(c *run.Ctx) {
 			small := gen.USmall()
